@@ -13,6 +13,7 @@ import (
 	"os"
 	"runtime"
 	"strings"
+	"sync"
 	"testing"
 	"testing/synctest"
 	"time"
@@ -178,6 +179,12 @@ func (s *Scenario) defaults() {
 	}
 }
 
+// concOut: one result of several concurrent calls of a protocol entry point, identified by its source port
+type concOut struct {
+	SPort int      `json:"sport"`
+	Hops  []hopOut `json:"hops"`
+}
+
 type hopOut struct {
 	TTL   int      `json:"ttl"`
 	Addr  string   `json:"addr"`
@@ -326,7 +333,7 @@ func runWire(t *testing.T, s *Scenario) (evs []wire.Event) {
 		}
 		w.LogEvent("Params", "variant", s.Variant, "entry", entryOf(s), "strict", s.Strict, "min", s.Min, "max", s.Max,
 			"timeout_us", int64(s.TimeoutMs)*1000, "delay_us", int64(s.DelayMs)*1000, "poll_us", int64(s.PollMs)*1000,
-			"target", s.Target, "port", s.Port, "cancel_us", s.CancelUs, "filter", s.Script.Filter, "realclock", s.Realclock)
+			"target", s.Target, "port", s.Port, "cancel_us", s.CancelUs, "filter", s.Script.Filter, "realclock", s.Realclock, "concurrent", numExtra(s, "concurrent"))
 		ctx, cancel := context.WithCancel(context.Background())
 		defer cancel()
 		if s.CancelUs > 0 {
@@ -342,6 +349,9 @@ func runWire(t *testing.T, s *Scenario) (evs []wire.Event) {
 		}
 		var run *result.TracerouteRun
 		var err error
+		var concMu sync.Mutex
+		conc := []concOut{}
+		concErr := 0
 		panicked := ""
 		limit := 30 * time.Minute // (the trace clock is in microseconds and TLC integers are 32 bit)
 		if s.Realclock {
@@ -353,7 +363,30 @@ func runWire(t *testing.T, s *Scenario) (evs []wire.Event) {
 					panicked = fmt.Sprint(r)
 				}
 			}()
+			// "concurrent": further identical calls of the protocol entry point running at the same time over the same wire (a library
+			// user with several goroutines), the k-th started k * stagger_us later; every result is reported with its source port
+			var cwg sync.WaitGroup
+			if n, ok := s.Extra["concurrent"].(float64); ok && n > 1 {
+				stag, _ := s.Extra["stagger_us"].(float64)
+				for k := 1; k < int(n); k++ {
+					cwg.Add(1)
+					go func(k int) {
+						defer cwg.Done()
+						defer func() { recover() }()
+						time.Sleep(time.Duration(float64(k)*stag) * time.Microsecond)
+						r2, e2 := callProto(ctx, s, target)
+						concMu.Lock()
+						defer concMu.Unlock()
+						if e2 == nil && r2 != nil {
+							conc = append(conc, concOut{SPort: int(r2.Source.Port), Hops: hopsOf(r2)})
+						} else {
+							concErr++
+						}
+					}(k)
+				}
+			}
 			run, err = callProto(ctx, s, target)
+			cwg.Wait()
 		})
 		if hung {
 			run, err = nil, errors.New("harness watchdog: the call did not return within 30 minutes of virtual time")
@@ -369,6 +402,10 @@ func runWire(t *testing.T, s *Scenario) (evs []wire.Event) {
 				time.Sleep(rest)
 			}
 		}
+		if run != nil {
+			conc = append(conc, concOut{SPort: int(run.Source.Port), Hops: hopsOf(run)})
+		}
+		ret = append(ret, "conc", conc, "conc_err", concErr)
 		if run != nil {
 			ret = append(ret, "hops", hopsOf(run), "src", ipStr(run.Source.IPAddress), "sport", int(run.Source.Port),
 				"dst", ipStr(run.Destination.IPAddress), "dport", int(run.Destination.Port))
